@@ -213,3 +213,165 @@ FUNCS = {"parse": parse, "parse_history": parse_history, "compile": compile_doc,
 
 def run_impl(fname, args):
     return FUNCS[fname](*args)
+
+
+# ---------------------------------------------------------------------------
+# kind-level stub: the real Parser driven by a stub scanner / matcher / builder
+
+KINDS = ["EOF", "Empty", "Comment", "TagLine", "FeatureLine", "RuleLine", "BackgroundLine", "ScenarioLine",
+         "ExamplesLine", "StepLine", "DocStringSeparator", "TableRow", "Language", "Other"]
+RULES = ["GherkinDocument", "Feature", "FeatureHeader", "Rule", "RuleHeader", "Background", "ScenarioDefinition",
+         "Scenario", "ExamplesDefinition", "Examples", "ExamplesTable", "Step", "DataTable", "DocString", "Tags",
+         "Description"]
+
+
+class _StubLine:
+    indent = 0
+
+    def __init__(self, kind):
+        self.kind = kind
+
+    def get_line_text(self, *a):
+        return self.kind
+
+
+class StubToken:
+    def __init__(self, kind, n):
+        self.kind = kind
+        self.n = n
+        self.line = None if kind == "EOF" else _StubLine(kind)
+        self.location = {"line": n}
+        self.matched_as = None
+
+    def eof(self):
+        return self.kind == "EOF"
+
+    @property
+    def detach(self):
+        return None
+
+    def token_value(self):
+        return "EOF" if self.eof() else self.kind
+
+
+class StubScanner:
+    def __init__(self, kinds, first=1):
+        self.kinds = list(kinds)
+        self.n = first - 1
+
+    def read(self):
+        self.n += 1
+        if self.kinds:
+            return StubToken(self.kinds.pop(0), self.n)
+        return StubToken("EOF", self.n)
+
+
+def stub_answers(test, kind):
+    return kind == test or (test == "Other" and kind != "EOF") or (kind == "Language" and test == "Comment")
+
+
+class StubMatcher:
+    def __init__(self):
+        self.calls = 0
+
+    def reset(self):
+        pass
+
+
+def _stub_match(test):
+    def f(self, token):
+        self.calls += 1
+        if stub_answers(test, token.kind):
+            token.matched_as = test
+            return True
+        return False
+    return f
+
+
+for _k in KINDS:
+    setattr(StubMatcher, "match_" + _k, _stub_match(_k))
+
+
+class StubBuilder:
+    def __init__(self):
+        self.events = []
+
+    def reset(self):
+        self.events = []
+
+    def start_rule(self, r):
+        self.events.append(["S", RULES.index(r)])
+
+    def end_rule(self, r):
+        self.events.append(["E", RULES.index(r)])
+
+    def build(self, token):
+        self.events.append(["B", token.n, token.matched_as])
+
+    def get_result(self):
+        return None
+
+
+def _stub_errors(errs):
+    out = []
+    for e in errs:
+        msg = str(e)
+        exp = msg.split("expected: ", 1)[1].split(", got '")[0].split(", ")
+        out.append([e.location["line"], [x.lstrip("#") for x in exp]])
+    return out
+
+
+def _stub_ctx(builder, matcher, context, scanner):
+    return {"events": builder.events, "queue": [t.n for t in context.token_queue] if context else [],
+            "lineno": scanner.n, "nerrs": len(context.errors) if context else 0,
+            "errors": _stub_errors(context.errors) if context else [], "calls": matcher.calls}
+
+
+def stub_match_token(stop, state, kind, rest):
+    from collections import deque
+    from gherkin.parser import ParserContext
+    b, m, sc = StubBuilder(), StubMatcher(), StubScanner(rest, first=2)
+    sc.n = 1
+    p = Parser(b)
+    p.stop_at_first_error = stop
+    ctx = ParserContext(sc, m, deque(), [])
+    tok = StubToken(kind, 1)
+    try:
+        s = p.match_token(state, tok, ctx)
+        out = {"ok": s}
+    except CompositeParserException as e:
+        out = {"raisec": len(e.errors)}
+    except ParserException as e:
+        out = {"raise1": e.location["line"]}
+    except RuntimeError:
+        out = {"crash": None}
+    out.update(_stub_ctx(b, m, ctx, sc))
+    return out
+
+
+def stub_run(stop, kinds):
+    """Parser.parse over a kind sequence; the context is captured through the matcher."""
+    b, m, sc = StubBuilder(), StubMatcher(), StubScanner(kinds)
+    p = Parser(b)
+    p.stop_at_first_error = stop
+    captured = {}
+    orig = p.match_token
+
+    def spy(state, token, context):
+        captured["ctx"] = context
+        return orig(state, token, context)
+    p.match_token = spy
+    try:
+        p.parse(sc, m)
+        out = {"ok": None}
+    except CompositeParserException as e:
+        out = {"raisec": len(e.errors)}
+    except ParserException as e:
+        out = {"raise1": e.location["line"]}
+    except RuntimeError:
+        out = {"crash": None}
+    out.update(_stub_ctx(b, m, captured.get("ctx"), sc))
+    return out
+
+
+FUNCS.update({"stub_match_token": stub_match_token, "stub_run": stub_run})
